@@ -48,7 +48,7 @@ TIERS = {
 FAULT_KINDS = ["illtyped_construct", "illtyped_subst", "unsupported", "undefined_symbol", "bad_smtlib", "bad_hr",
                "unsupported_command", "redefine_symbol", "stream_eio", "solver_convert", "solver_unknown",
                "script_strict", "parse_declares", "bad_interpretation", "arith_error_subst", "sl_error", "bad_size_measure",
-               "nonincr_is_sat", "readd_solver", "model_incomplete", "bad_preference_list", "solver_reset_refused", "script_evaluate", "solver_pop_too_many", "printer_unsupported"]
+               "nonincr_is_sat", "readd_solver", "model_incomplete", "bad_preference_list", "solver_reset_refused", "script_evaluate", "solver_pop_too_many", "printer_unsupported", "bad_cmdgen"]
 SERVICES = ["simplify", "substitute", "free_vars", "atoms", "theory", "types", "size", "serialize", "to_smtlib",
             "nnf", "cnf", "aig", "prenex", "is_qf", "logic", "model_value"]
 
@@ -253,6 +253,10 @@ def gen_plan(tape, cfg):
             elif kind == "printer_unsupported":
                 o["t"] = _embed_xnode(tape, t)
                 o["printer"] = tape.choice(PRINTERS, "badprint.kind")
+            elif kind == "bad_cmdgen":
+                # a command whose BODY fails after names were bound for it (formal parameter, let
+                # variable, bound variable), given to a parser that is used command by command
+                o["which"] = tape.choice(sorted(BAD_CMDS), "badcmd.which")
             elif kind == "script_evaluate":
                 o["f"] = bp.gen_term(tape, bp.BOOL, 2, sctx)
                 o["prio"] = tape.choice(["single-obj", "lex", "box"], "seval.prio")
@@ -260,6 +264,9 @@ def gen_plan(tape, cfg):
             if o["kind"] in ("illtyped_construct", "illtyped_subst", "unsupported", "redefine_symbol",
                              "undefined_symbol", "bad_hr", "bad_size_measure") and tape.chance(2, 3, "retry?"):
                 pending_retry.append(dict(o, op="both_fault"))
+            if o["kind"] == "bad_cmdgen":
+                # later the same name is used by a command that does not bind it
+                pending_retry.insert(0, {"op": "cmdgen", "text": "(assert (= %s 3))" % BAD_CMDS[o["which"]][1]})
             if o["kind"] == "sl_error" and o["cmd"] == "pop":
                 # what a query left behind (had its level not been popped) would contradict this one
                 pending_retry.insert(0, {"op": "sl", "sop": "is_sat", "f": ["not", o["f"]]})
@@ -344,6 +351,8 @@ def describe(plan):
             d = {k: (bp.pretty(v) if isinstance(v, list) and v and isinstance(v[0], str) and k in ("a", "b", "key", "val", "t", "f") else v)
                  for k, v in o.items() if k not in ("op", "kind")}
             out.append("A only (must fail): %s %s" % (o["kind"], d))
+        elif o["op"] == "cmdgen":
+            out.append("A,B: list(cmd_parser.get_command_generator(%r))" % o["text"])
         elif o["op"] == "print_long":
             out.append("A,B: long-lived %s printer prints pool[%d]" % (o["printer"], o["i"] % len(plan["pool"])))
         elif o["op"] == "hr":
@@ -580,6 +589,12 @@ def execute(plan, tape):
                     state["nontrivial"] = True
                     probe("parser_reused_after_failed_parse")
                 trace.append(("parse", ra[0]))
+            elif kind == "cmdgen":
+                ra, rb = [on(s_, lambda s_=s_: [[c.name, [a for a in c.args]] for c in _cmdparser(s_).get_command_generator(StringIO(o["text"]))])
+                          for s_ in (A, B)]
+                same("parser.get_command_generator", ra, rb, None, repr(o["text"]))
+                state["nontrivial"] = True
+                trace.append(("cmdgen", ra[0]))
             elif kind == "print_long":
                 term = pool[o["i"] % len(pool)]
                 ra, rb = [on(s_, lambda s_=s_: _print_long(s_, o["printer"], bp.build(term, s_.env))) for s_ in (A, B)]
@@ -815,6 +830,18 @@ def _declared_by_wellformed_command(msg, texts):
 
 
 PRINTERS = ["smt_dag", "smt_tree", "hr"]
+BAD_CMDS = {"define-fun": ("(define-fun cf ((cv Int)) Int (+ cv p))", "cv"),
+            "let": ("(assert (let ((lw (+ x 1))) (and lw p)))", "lw"),
+            "forall": ("(assert (forall ((qv Int)) (and qv p)))", "qv")}
+
+
+def _cmdparser(side):
+    """the side's parser that is only ever used command by command (no per-script reset)"""
+    if getattr(side, "cmdparser", None) is None:
+        from pysmt.smtlib.parser import SmtLibParser
+        side.cmdparser = SmtLibParser(environment=side.env)
+        list(side.cmdparser.get_command_generator(StringIO("(declare-fun p () Bool) (declare-fun x () Int)")))
+    return side.cmdparser
 
 
 def _print_long(side, kind, formula):
@@ -1036,6 +1063,8 @@ def _fault_fn(o, term, symbols, user, side, tape):
         return fn, None
     if fk == "printer_unsupported":
         return (lambda: _print_long(side, o["printer"], bp.build(o["t"], env))), None
+    if fk == "bad_cmdgen":
+        return (lambda: list(_cmdparser(side).get_command_generator(StringIO(BAD_CMDS[o["which"]][0])))), None
     if fk == "solver_pop_too_many":
         # more levels than there are: the back end refuses, nothing may have been popped
         return (lambda: side.solver.pop(side.sdepth + 1 + (1 if side.solver.pending_pop else 0))), None
